@@ -7,6 +7,7 @@ import (
 	"fmt"
 	"math/big"
 	"math/rand"
+	"os"
 	"sort"
 	"time"
 	"tsim/genfault"
@@ -1121,13 +1122,27 @@ func (w *bscWorld) opRollback(op kernel.Op) {
 		hs = append(hs, h)
 	}
 	sort.Slice(hs, func(i, j int) bool { return hs[i] < hs[j] })
-	if len(hs) > 0 && hs[0] != e.h.Number.Uint64() {
-		_, found := w.host.App.XIBCKeeper.ClientKeeper.GetClientConsensusState(ctx, w.name, clienttypes.NewHeight(0, hs[0]))
-		if !found && w.m.times[hs[0]]+w.tp < uint64(w.host.CurHdr.Time.Unix()) {
-			delete(w.m.roots, hs[0])
-			delete(w.m.times, hs[0])
+	// (the oldest state that was stored before the upgrade re-installed the epoch block's own)
+	for _, h := range hs {
+		if h == e.h.Number.Uint64() {
+			continue
+		}
+		_, found := w.host.App.XIBCKeeper.ClientKeeper.GetClientConsensusState(ctx, w.name, clienttypes.NewHeight(0, h))
+		if !found && w.m.times[h]+w.tp < uint64(w.host.CurHdr.Time.Unix()) {
+			delete(w.m.roots, h)
+			delete(w.m.times, h)
 			w.rec.Probe("prune.by_upgrade")
 		}
+		break
+	}
+	if os.Getenv("TSIM_DEBUG") != "" {
+		var st []uint64
+		for _, c := range w.host.App.XIBCKeeper.ClientKeeper.GetAllConsensusStates(w.host.ReadCtx()) {
+			for _, x := range c.ConsensusStates {
+				st = append(st, x.Height.RevisionHeight)
+			}
+		}
+		fmt.Fprintln(os.Stderr, "DEBUG rollback: stored", st, "model", rootKeys(w.m.roots), "now", w.host.CurHdr.Time.Unix(), "times", w.m.times, "tp", w.tp)
 	}
 	w.checkClient("after rollback upgrade")
 }
